@@ -1,5 +1,5 @@
 (* Model/C20Run.v - case type and checker evaluated on harness-generated cases (C20) *)
-From ReqV Require Export Lib.Bytes Lib.PackedBytes Model.Base64 Model.Digest Model.ProxyAuth Model.AuthReexec.
+From ReqV Require Export Lib.Bytes Lib.PackedBytes Model.Base64 Model.Digest Model.ProxyAuth Model.AuthReexec Model.FormResend.
 
 (* hash oracle table supplied by the harness: (function, input, hex digest) computed with the
    Go standard library for every input the RFC 7616 computation hashes in that case *)
@@ -61,6 +61,12 @@ Inductive c20_case :=
 (* one Request object executed several times, credential setters on client and request in
    between; [obs]: the Authorization header the origin received per execution *)
 | ReexecCase (ops : list auth_op) (obs : list (option bytes))
+(* clients and their clones: credential setters on either, requests from either; clients are
+   numbered in order of creation *)
+| CloneCase (ops : list cl_op) (obs : list (option bytes))
+(* a url-encoded form answered with a digest challenge: client-level and request-level fields,
+   and the fields read from the body of the first and of the re-sent request *)
+| FormResendCase (client req first resend : list ffield)
 (* one call through a real client against the scripted origin *)
 | ExchangeCase (t : hash_table) (replayable : bool) (fault : option bool) (first : wire_request) (status : N) (chals : list bytes) (rbody user pass cnonce : bytes)
                (obs_wire : list wire_request) (e : obs_err).
@@ -136,6 +142,10 @@ Definition c20_check (c : c20_case) : bool :=
           if strict_only then implb m go else Bool.eqb m go
       | inr _ => false
       end
+  | CloneCase ops obs => ops_ok 1 ops && list_eqb opt_bytes_eqb (cl_run cl_init ops) obs
+  | FormResendCase client req first resend =>
+      same_fields first (form_first client req) && same_fields resend (form_resend client req) &&
+      list_eqb ffield_eqb first resend
   | ReexecCase ops obs => list_eqb opt_bytes_eqb (rq_run rq_init ops) obs
   | UserinfoCase u s raw op =>
       bytes_eqb (ui_string u) s && opt_ui_eqb (ui_parse s) (Some u) && opt_ui_eqb (ui_parse raw) op
